@@ -78,6 +78,14 @@ func c16CheckArbitrary(prefix, body string) (string, string) {
 	if prefix == "zz://" && body != "" && onlyChars(body, "tcpudnix46.a1") && !errors.Is(err, errorx.ErrUnsupportedProtocol) {
 		return fmt.Sprintf("parseProtoAddr(%q) = %v; want the unsupported-protocol error", in, err), "parse:unknownerr"
 	}
+	// the opaque spelling "scheme:rest": an unknown scheme in front of a non-empty endpoint is the
+	// unsupported-protocol case whichever way the endpoint is written
+	if i := strings.IndexByte(body, ':'); prefix == "" && i > 0 && i < len(body)-1 {
+		sch, rest := body[:i], body[i+1:]
+		if sch[0] >= 'a' && sch[0] <= 'z' && onlyChars(sch, "tcpudnix46a1") && !c16Schemes[sch] && onlyChars(rest, "tcpudnix46.a1") && !errors.Is(err, errorx.ErrUnsupportedProtocol) {
+			return fmt.Sprintf("parseProtoAddr(%q) = %v; want the unsupported-protocol error (unknown scheme %q, endpoint %q)", in, err, sch, rest), "parse:unknownerr-opaque"
+		}
+	}
 	if (prefix == "tcp://" || prefix == "udp6://" || prefix == "unix://") && body != "" && onlyChars(body, "tcpudnixa") {
 		return fmt.Sprintf("parseProtoAddr(%q) failed: %v", in, err), "parse:rejectedvalid"
 	}
